@@ -8,7 +8,7 @@
 // clause) that itself contains a channel send, a channel receive, a select, a
 // close(...) call, a go statement, or - in files under apps/ - a call whose name
 // starts with "write"/"Write".  "defer close(ch)" becomes
-// "defer func() { hook; close(ch) }()".  Insertion is purely additive and sits at
+// "defer close(ch); defer hook" (the hook runs first, ch is evaluated as before).  Insertion is purely additive and sits at
 // points where the goroutine could already block or be pre-empted, so it cannot
 // create an interleaving the program could not have.
 package inject
@@ -124,7 +124,12 @@ func Build(repoDir, outDir, hookSrc string, extra map[string]string, instrument 
 					sid := addSite(fnName, "deferclose")
 					callText := string(src[offset(s.Call.Pos()):offset(s.Call.End())])
 					edits = append(edits, edit{off: offset(s.Pos()), end: offset(s.End()),
-						text: fmt.Sprintf("defer func() { verifhook.At(%d); %s }()", sid, callText)})
+						// two deferred calls on one line: the channel expression is still
+						// evaluated when the defer statement executes (a closure would read
+						// the variable when the function returns - a different channel if the
+						// variable has been assigned to in between), and the hook, deferred
+						// last, runs first
+						text: fmt.Sprintf("defer %s; defer verifhook.At(%d)", callText, sid)})
 				}
 				// function literals inside are walked below
 			case *ast.GoStmt:
